@@ -533,10 +533,19 @@ fn threads(a: &Args) {
         write_block(&mut w, &evs);
         storm_stats.push(st);
     }
+    // read storms: several threads hammer ONLY shared operations on the same resources
+    let rstorms: usize = a.num("rstorms", 0);
+    let rstorm_ms: u64 = a.num("rstorm-ms", 30);
+    let mut rstorm_stats = Vec::new();
+    for b in 0..rstorms {
+        let (evs, st) = read_storm_block(&mut rng, blocks + storms + b, rstorm_ms, maxthreads);
+        write_block(&mut w, &evs);
+        rstorm_stats.push(st);
+    }
     w.flush().unwrap();
     println!(
         "{}",
-        json!({"storm_blocks":storm_stats,"blocks":blocks,"thread_calls":tcalls,"syncs":syncs,"aborted_blocks":aborted,"threads_per_block":thread_counts,"max_pending_calls":max_pending,"rounds_on_rayon_workers":rayon_rounds,"calls_overlapping_another":overlapped,
+        json!({"read_storm_blocks":rstorm_stats,"storm_blocks":storm_stats,"blocks":blocks,"thread_calls":tcalls,"syncs":syncs,"aborted_blocks":aborted,"threads_per_block":thread_counts,"max_pending_calls":max_pending,"rounds_on_rayon_workers":rayon_rounds,"calls_overlapping_another":overlapped,
                "outcomes":outcomes,"samples":samples})
     );
 }
@@ -924,5 +933,160 @@ fn storm_on_rayon(k: usize, body: &(dyn Fn(usize) -> (Vec<SEv>, usize) + Sync)) 
 }
 #[cfg(not(feature = "parallel"))]
 fn storm_on_rayon(_: usize, _: &(dyn Fn(usize) -> (Vec<SEv>, usize) + Sync)) -> Vec<(Vec<SEv>, usize)> {
+    unreachable!()
+}
+
+// ------------------------------------------------------------------ read storms
+
+const READ_KINDS: [&str; 8] = ["fetch", "try_fetch", "try_fetch_by_id", "read", "opt_read", "clone", "meta_iter", "drop"];
+
+/// One read-storm block: `k` threads issue only SHARED operations (typed and by-id fetches, `Read`
+/// and `Option<Read>` system data, `Fetch::clone`, `MetaTable::iter`) on the same two resources
+/// for a few tens of milliseconds; on resource A every thread keeps up to three guards alive
+/// across its calls, resource B is fetched and released at once (so that it is idle again and
+/// again).  No exclusive guard exists anywhere, both resources are present: the model grants
+/// every one of these operations whatever the interleaving, so the block is logged as ONE
+/// `rstorm` event with the number of operations and of failures (panic / None) per kind.
+fn read_storm_block(rng: &mut StdRng, b: usize, ms: u64, maxthreads: usize) -> (Vec<Value>, Value) {
+    use std::sync::atomic::AtomicBool;
+    let (nt, nd) = (2usize, 2usize);
+    // Read<T> needs T: Default: no Box<dyn Resource> here
+    let (tys, dyns) = variant(rng, nt, nd, false, &[1, 2]);
+    let mut d = Driver::new(tys.clone(), dyns.clone());
+    d.seed_ctors(rng.gen());
+    let mut evs = vec![json!({"ev":"reset","src":"read-storm","nblock":b,"tymap":tys,"xdyn":dyns.iter().map(|x| x.to_string()).collect::<Vec<_>>()})];
+    for ty in 1..=nt as u32 {
+        for dy in 0..nd as u32 {
+            evs.push(d.do_call(&CallSpec { op: "insert_by_id".into(), targ: ty, ty, dy, p: rng.gen_range(1..100), ..Default::default() }));
+        }
+    }
+    let k = rng.gen_range(4..=maxthreads.clamp(4, 8));
+    let on_rayon = cfg!(feature = "parallel") && rng.gen_bool(0.5);
+    // resource A = (1,0): guards are held across calls; resource B = (2,0): fetched and released at once
+    let rid_a: Vec<shred::ResourceId> = (0..k).map(|_| d.rid_any(1, 0)).collect();
+    let rid_b: Vec<shred::ResourceId> = (0..k).map(|_| d.rid_any(2, 0)).collect();
+    let (ci_a, ci_b) = (d.ci(1), d.ci(2));
+    let (world, meta) = (d.w(), d.meta());
+    let stop = AtomicBool::new(false);
+    let start = std::sync::Barrier::new(k + 1);
+    let seeds: Vec<u64> = (0..k).map(|_| rng.gen()).collect();
+    let body = |t: usize| -> (Vec<u64>, Vec<u64>) {
+        let mut rng = StdRng::seed_from_u64(seeds[t]);
+        let (mut ops, mut fail) = (vec![0u64; READ_KINDS.len()], vec![0u64; READ_KINDS.len()]);
+        let mut held: std::collections::VecDeque<Box<dyn shredh::worldx::AnyGuard>> = std::collections::VecDeque::new();
+        start.wait();
+        while !stop.load(Ordering::Relaxed) {
+            for _ in 0..64 {
+                let on_a = rng.gen_bool(0.5);
+                let (ci, id) = if on_a { (ci_a, rid_a[t].clone()) } else { (ci_b, rid_b[t].clone()) };
+                let kind = rng.gen_range(0..7usize);
+                ops[kind] += 1;
+                let r: Result<Option<Box<dyn shredh::worldx::AnyGuard>>, ()> = match kind {
+                    0 => std::panic::catch_unwind(std::panic::AssertUnwindSafe(|| shredh::worldx::thread_fetch(world, "fetch", ci, id))).map_err(|_| ()),
+                    1 => std::panic::catch_unwind(std::panic::AssertUnwindSafe(|| shredh::worldx::thread_fetch(world, "try_fetch", ci, id))).map_err(|_| ()),
+                    2 => std::panic::catch_unwind(std::panic::AssertUnwindSafe(|| shredh::worldx::thread_fetch(world, "try_fetch_by_id", ci, id))).map_err(|_| ()),
+                    3 => std::panic::catch_unwind(std::panic::AssertUnwindSafe(|| shredh::worldx::thread_fetch(world, "sd_read", ci, id))).map_err(|_| ()),
+                    4 => std::panic::catch_unwind(std::panic::AssertUnwindSafe(|| shredh::worldx::thread_fetch(world, "sd_optread", ci, id))).map_err(|_| ()),
+                    5 => match held.iter().find(|g| g.cloneable()) {
+                        Some(g) => std::panic::catch_unwind(std::panic::AssertUnwindSafe(|| g.dup())).map_err(|_| ()),
+                        None => {
+                            ops[kind] -= 1;
+                            continue;
+                        }
+                    },
+                    _ => {
+                        // MetaTable::iter over the registered types: both (t, 0) are present, so it yields two items
+                        let r = std::panic::catch_unwind(std::panic::AssertUnwindSafe(|| meta.iter(world).count()));
+                        match r {
+                            Ok(2) => {}
+                            _ => fail[kind] += 1,
+                        }
+                        continue;
+                    }
+                };
+                match r {
+                    Ok(Some(g)) => {
+                        // a guard obtained through the by-id / typed paths on A may stay for a while
+                        if on_a || kind == 5 {
+                            held.push_back(g);
+                        } else {
+                            ops[7] += 1;
+                            if std::panic::catch_unwind(std::panic::AssertUnwindSafe(move || drop(g))).is_err() {
+                                fail[7] += 1;
+                            }
+                        }
+                    }
+                    _ => fail[kind] += 1,
+                }
+                while held.len() > 3 || (!held.is_empty() && rng.gen_bool(0.3)) {
+                    let g = held.pop_front().unwrap();
+                    ops[7] += 1;
+                    if std::panic::catch_unwind(std::panic::AssertUnwindSafe(move || drop(g))).is_err() {
+                        fail[7] += 1;
+                    }
+                }
+            }
+        }
+        while let Some(g) = held.pop_front() {
+            ops[7] += 1;
+            if std::panic::catch_unwind(std::panic::AssertUnwindSafe(move || drop(g))).is_err() {
+                fail[7] += 1;
+            }
+        }
+        (ops, fail)
+    };
+    let t0 = std::time::Instant::now();
+    let timer = || {
+        start.wait();
+        std::thread::sleep(std::time::Duration::from_millis(ms));
+        stop.store(true, Ordering::SeqCst);
+    };
+    let results: Vec<(Vec<u64>, Vec<u64>)> = if on_rayon {
+        read_storm_on_rayon(k, &body, &timer)
+    } else {
+        std::thread::scope(|s| {
+            let hs: Vec<_> = (0..k).map(|t| { let body = &body; s.spawn(move || body(t)) }).collect();
+            timer();
+            hs.into_iter().map(|h| h.join().expect("read storm thread")).collect()
+        })
+    };
+    let wall = t0.elapsed().as_secs_f64();
+    let (mut ops, mut fail) = (vec![0u64; READ_KINDS.len()], vec![0u64; READ_KINDS.len()]);
+    for (o, f) in &results {
+        for i in 0..READ_KINDS.len() {
+            ops[i] += o[i];
+            fail[i] += f[i];
+        }
+    }
+    let per = |v: &Vec<u64>| -> Value { Value::Object(READ_KINDS.iter().zip(v.iter()).map(|(k, n)| (k.to_string(), json!(n.min(&2_000_000_000)))).collect()) };
+    let failures: u64 = fail.iter().sum();
+    evs.push(json!({"ev":"rstorm","threads":k,"rayon":on_rayon,"ids":[[1,0],[2,0]],"ops":per(&ops),"fail":per(&fail),
+                    "operations":ops.iter().sum::<u64>().min(2_000_000_000),"failures":failures.min(2_000_000_000),"obs":d.observe()}));
+    if let Some(why) = &d.abort {
+        evs.push(json!({"ev":"abort","why":why}));
+    }
+    let st = json!({"threads":k,"rayon":on_rayon,"operations":ops.iter().sum::<u64>(),"failures":failures,"fail":per(&fail),"wall_s":wall});
+    (evs, st)
+}
+
+#[cfg(feature = "parallel")]
+fn read_storm_on_rayon(k: usize, body: &(dyn Fn(usize) -> (Vec<u64>, Vec<u64>) + Sync), timer: &(dyn Fn() + Sync)) -> Vec<(Vec<u64>, Vec<u64>)> {
+    let pool = rayon::ThreadPoolBuilder::new().num_threads(k).build().unwrap();
+    let slots: Vec<Mutex<Option<(Vec<u64>, Vec<u64>)>>> = (0..k).map(|_| Mutex::new(None)).collect();
+    std::thread::scope(|ts| {
+        ts.spawn(|| timer());
+        pool.scope(|s| {
+            for t in 0..k {
+                let slots = &slots;
+                s.spawn(move |_| {
+                    *slots[t].lock().unwrap() = Some(body(t));
+                });
+            }
+        });
+    });
+    slots.into_iter().map(|m| m.into_inner().unwrap().expect("read storm task")).collect()
+}
+#[cfg(not(feature = "parallel"))]
+fn read_storm_on_rayon(_: usize, _: &(dyn Fn(usize) -> (Vec<u64>, Vec<u64>) + Sync), _: &(dyn Fn() + Sync)) -> Vec<(Vec<u64>, Vec<u64>)> {
     unreachable!()
 }
